@@ -39,6 +39,7 @@ def _resolve_scenarios():
         ("field", {"kind": "FieldNode"}),
         ("spread used as mixin", {"kind": "FragmentSpreadNode", "unpack": False}),
         ("spread unpacked, condition matches", {"kind": "FragmentSpreadNode", "unpack": True, "applies": True}),
+        ("spread unpacked, fragment on an abstract type of which the selection's type is a sub type", {"kind": "FragmentSpreadNode", "unpack": True, "applies": "subtype"}),
         ("spread unpacked, condition does not match", {"kind": "FragmentSpreadNode", "unpack": True, "applies": False}),
         ("inline fragment that applies", {"kind": "InlineFragmentNode", "inline_root": True}),
         ("inline fragment that does not apply", {"kind": "InlineFragmentNode", "inline_root": False}),
@@ -53,10 +54,14 @@ def _resolve_atom(scn, sel: str):
                 return scn["kind"] == k
         if t.startswith("self._unpack_fragment("):
             return scn.get("unpack")
+        ap = scn.get("applies")
         if t.endswith(".type_condition.name.value == root_type") and "fragments_definitions" in t:
-            return scn.get("applies")
-        if t.startswith("is_abstract_type(") or t.startswith("self.schema.is_sub_type("):
-            return scn.get("applies")
+            return False if ap == "subtype" else ap
+        if t.startswith("is_abstract_type("):
+            return True if ap == "subtype" else ap
+        if t.startswith("self.schema.is_sub_type(") and t.endswith(", self.schema.type_map[root_type])") and ".type_condition.name.value]" in t:
+            # graphql-core's notion: possible object types AND interfaces implementing the interface
+            return True if ap == "subtype" else ap
         if t.startswith("self._get_inline_fragment_root_type("):
             return scn.get("inline_root")
         return None
@@ -64,7 +69,7 @@ def _resolve_atom(scn, sel: str):
 
 
 @rule("C01.R1", "every selection is accounted for: fields appended, spreads recorded (mixin or unpacked+merged), inline fragments merged",
-      min_instances=7, also=["C02", "C08"])
+      min_instances=8, also=["C02", "C08", "C05"])
 def c01_r1(ctx):
     fi = ctx.repo.func(RT + "_resolve_selection_set")
     loops = [n for n in fi.node.body if isinstance(n, ast.For)]
@@ -117,6 +122,26 @@ def c01_r1(ctx):
             if not (isinstance(rv, ast.Tuple) and len(rv.elts) == 2 and is_name(rv.elts[0], "fields")):
                 probs.append(f"does not return (fields, fragments): {norm(rv) if rv is not None else None}")
         ctx.check(not probs, key(fi, f"path: {name}"), "; ".join(sorted(set(probs))), fi.loc(), okmsg=f"_resolve_selection_set [{name}] accounted for")
+
+
+@rule("C01.R9", "@skip/@include on a fragment spread or inline fragment makes the fields it contributes optional", min_instances=2, also=["C05"])
+def c01_r9(ctx):
+    fi = ctx.repo.func(RT + "_resolve_selection_set")
+    loops = [n for n in fi.node.body if isinstance(n, ast.For)]
+    if len(loops) != 1:
+        raise AnalysisError("_resolve_selection_set: selection loop not found")
+    sel = norm(loops[0].target)
+    for kind in ("FragmentSpreadNode", "InlineFragmentNode"):
+        branch = None
+        for n in ast.walk(loops[0]):
+            if isinstance(n, ast.If) and norm(n.test) == f"isinstance({sel}, {kind})":
+                branch = n
+        if branch is None:
+            raise AnalysisError(f"_resolve_selection_set: {kind} branch not found")
+        reads = any(isinstance(x, ast.Attribute) and x.attr == "directives" and norm(x.value) == sel for s_ in branch.body for x in ast.walk(s_))
+        ctx.check(reads, key(fi, f"{kind} directives"),
+                  f"the {kind} branch never reads `{sel}.directives`: fields merged from `... @include(if: $x) {{ name }}` or `...Frag @skip(if: $x)` stay required although the server omits them "
+                  "when the condition says so; the information cannot reach parse_directives", fi.loc(branch), okmsg=f"{kind}: its conditional directives are taken into account")
 
 
 # ---------------------------------------------------------------------- C01.R2
@@ -577,8 +602,12 @@ def c08_r4(ctx):
     repo = ctx.repo
     fi = repo.func(RT + "_get_extra_bases_from_mixin_directives")
     eff = lambda c: isinstance(c.func, ast.Attribute) and c.func.attr in ("append", "extend")
-    o = [x for x in Interp(fi, lambda e: True if norm(e) == "node.directives" else None, is_effect=eff).run() if any("loop body once" in t for t in x.trace)]
+    allo = Interp(fi, lambda e: True if norm(e) == "node.directives" else None, is_effect=eff).run()
+    o = [x for x in allo if any("loop body once" in t for t in x.trace)]
     probs = []
+    for x in allo:
+        if x not in o and not (x.kind == "return" and not x.effects and isinstance(x.value, ast.Name) and norm(x.env.get(x.value.id) or ast.Constant(0)) == "[]"):
+            probs.append(f"a path returns `{x.text()[:80]}` without looking at the node's own @mixin directives (bases remembered from another node?)")
     if len(o) != 1:
         probs.append(f"{len(o)} paths through the directive loop")
     else:
